@@ -1,5 +1,6 @@
 import Driver.Manager
 import Driver.Stream
+import Driver.Stream2
 import Driver.Sym
 import Driver.Aead
 import Driver.Keyset
@@ -38,6 +39,10 @@ def dispatch (st : DState) (line : String) : DState × String :=
   | "S" :: rest =>
     match Driver.Strm.handle st.strm rest with
     | some (m, out) => ({ st with strm := m }, out)
+    | none => (st, "bad-op")
+  | "T" :: rest =>
+    match Driver.Strm2.handle rest with
+    | some out => (st, out)
     | none => (st, "bad-op")
   | "A" :: rest =>
     match Driver.AeadD.handle rest with
